@@ -2,7 +2,7 @@
    tables equal the reference kernels.  Statements only.  GenFpMath.* is regenerated from
    ethosu/vela/fp_math.py on every run; FpMath.* are the transcribed reference functions. *)
 From Coq Require Import ZArith List Bool.
-From VV Require Import lib.PyInt gen.GenFpMath model.FpMath proofs.FpMathProofs.
+From VV Require Import lib.PyInt lib.PyFloat gen.GenFpMath model.FpMath proofs.FpMathProofs.
 Import ListNotations.
 Open Scope Z_scope.
 
@@ -157,6 +157,29 @@ Theorem lut_prelu_correct : forall zi zo azp acode ids idsh als alsh qmin qmax x
     Some (PReluRef zi zo azp acode ids (31 - idsh) als (31 - alsh) qmin qmax x).
 Proof. exact lut_prelu_correct_lemma. Qed.
 Print Assumptions lut_prelu_correct.
+
+(* convert_mul_max_to_abs_or_lrelu -> convert_lrelu_to_lut on Maximum(x, Mul(x, c)) or Maximum(x, Mul(c, x)):
+   for either operand order the table is the MUL-kernel reference whose multiplier is
+   qs(feature-map scale, CONSTANT's scale, Mul output scale)  (qs = scaling.elementwise_mul_scale) *)
+Theorem lut_mulmax_correct : forall qs fm ct mul_ofm (const_first : bool) zo ids idsh qmin qmax x,
+  let in1 := if const_first then ct else fm in
+  let in2 := if const_first then fm else ct in
+  let als := fst (qs (q_scale fm) (q_scale ct) (q_scale mul_ofm)) in
+  let alsh := snd (qs (q_scale fm) (q_scale ct) (q_scale mul_ofm)) in
+  same8 x (q_zp fm) -> same8 (q_code ct) (q_zp ct) -> code8 zo ->
+  in_int 32 ids = true -> in_int 32 als = true -> 9 <= idsh <= 62 -> 16 <= alsh <= 62 ->
+  vela_mulmax_entry qs fm in1 in2 mul_ofm (negb const_first) zo ids idsh qmin qmax x =
+    Some (PReluRef (q_zp fm) zo (q_zp ct) (q_code ct) ids (31 - idsh) als (31 - alsh) qmin qmax x).
+Proof. exact lut_mulmax_correct_lemma. Qed.
+
+(* the rewrite decision: LeakyRelu iff 0 <= (code - zp) * scale <= 1, Abs iff it is -1 (scale = m * 2^e, e <= 0) *)
+Theorem mulmax_decision_by_value : forall code zp m e,
+  e <= 0 ->
+  (mulmax_kind code zp (Dy m e) = 1 <-> 0 <= m * (code - zp) <= 2 ^ (- e)) /\
+  (mulmax_kind code zp (Dy m e) = 2 <-> m * (code - zp) = - 2 ^ (- e)).
+Proof. exact mulmax_kind_spec. Qed.
+Print Assumptions lut_mulmax_correct.
+Print Assumptions mulmax_decision_by_value.
 
 (* convert_hardswish_to_lut under Python-int evaluation of fp_math (see the check for NumPy scalars):
    output multiplier exponent <= 0 as the reference kernel requires *)
